@@ -646,9 +646,7 @@ fn drop_boxed(run: &mut Run, h: Box<dyn std::any::Any>, what: &'static str) {
     // free the box without running the destructor again
     unsafe {
         let layout = std::alloc::Layout::for_value(&*raw);
-        if layout.size() != 0 {
-            std::alloc::dealloc(raw as *mut u8, layout);
-        }
+        tls::bury(raw as *mut u8, layout);
     }
 }
 
@@ -716,7 +714,7 @@ fn monitors<M: RawMutex + 'static>(chan: &Chan<M>, m: &Model, slots: &[Slot<RFut
             .enumerate()
             .map(|(i, s)| SlotView { queue: 0, idx: i as u8, range: s.range(), pending: s.pending(), woken: s.woken() })
             .collect();
-        check_list_queues(snap, &[0], &views, run, order);
+        check_list_queues(snap, &[0], &views, run, order, "C12");
     }
     if run.want_fp {
         let mut h = H128::new();
